@@ -11,7 +11,7 @@
 (*                 position `fixed`, resp. at some position >= max(i, min)        *)
 (* The obligations are checked on every input up to MaxLen over the pattern's own *)
 (* alphabet plus one foreign letter and LF.  One TLC state per facts event.       *)
-EXTENDS ApiOps, Engine, TLC
+EXTENDS ApiOps, Search, TLC
 
 Rec == ndJsonDeserialize(IOEnv.TRACE)
 MaxLenF == 3
@@ -65,7 +65,19 @@ FNext ==
           (* translation validation of the compiler: the operator tree the code built is the one the model lowers to *)
           /\ LET pat == IF ParseFlags(Ev.flags, Ev.xpath).x THEN Strip(Ev.pat) ELSE Ev.pat
                  model == Program(c.prog, pat) IN
-             TreeOk(model, Ev.facts.ops) \/ Report("lowering", [model |-> model, code |-> Ev.facts.ops])
+             /\ (TreeOk(model, Ev.facts.ops) \/ Report("lowering", [model |-> model, code |-> Ev.facts.ops]))
+             (* ... and the facts the code derived from it are the ones the model derives (ReProgram::new) *)
+             /\ LET mf == FactsOf(c.prog, model)  cf == Ev.facts
+                    sameKind(a, b) == IF a.k \in {"atom", "class"} THEN b.k = a.k
+                                      ELSE b.k \in {"repeat", "greedyfixed", "reluctantfixed", "unambiguous"} /\ b.min = a.min
+                    ok == /\ cf.minlen = mf.minlen /\ cf.hasbol = mf.hasbol
+                          /\ cf.prefix.some = (mf.prefix # <<>>) /\ (mf.prefix # <<>> => cf.prefix.v = mf.prefix[1])
+                          /\ cf.initial.some = (mf.initial # <<>>)
+                          /\ Len(cf.pre) = Len(mf.pre)
+                          /\ \A q \in 1..Len(mf.pre) : cf.pre[q].fixed = mf.pre[q].fixed /\ cf.pre[q].min = mf.pre[q].min
+                                                       /\ sameKind(mf.pre[q].op, cf.pre[q].op)
+                IN ok \/ Report("lowering", [what |-> "facts differ from the model", minlen |-> mf.minlen, hasbol |-> mf.hasbol,
+                                              prefix |-> mf.prefix, npre |-> Len(mf.pre)])
           /\ \A s \in InputsF(PatAlphabet(c.prog.ast)) : (CaseUnspec(c.prog, s) \/ GcUnspec(c.prog, s)) \/ Obligations(c.prog, Ev.facts, s)
 FAccepted == /\ PrintT("TRACE-STATS " \o ToJson([lines |-> Len(Rec), consumed |-> TLCGet(10) - 1, compared |-> TLCGet(1),
                                                  unspec |-> TLCGet(2)]))
